@@ -44,11 +44,16 @@ def ident(x):
     return x
 
 
+def nonef(x):
+    """executed for its side effect: its (legal) result is None"""
+    return None
+
+
 def boom(x):
     raise ValueError(f"boom {x}")
 
 
-LIB = {"k0": k0, "inc": inc, "add": add, "pair": pair, "pair_u": pair, "mkd": mkd, "ident": ident, "boom": boom}
+LIB = {"nonef": nonef, "k0": k0, "inc": inc, "add": add, "pair": pair, "pair_u": pair, "mkd": mkd, "ident": ident, "boom": boom}
 UNPACK = {"pair_u": 2}
 SETUP_FNS = {"sk0": k0, "sinc": inc}  # setup variants (decorated with setup=True)
 LIB.update(SETUP_FNS)
